@@ -394,6 +394,9 @@ def run(pid, tier):
         if m < 0.50:
             d = J.gen_document(rng, rng.choice([1, 2, 3]))
             hist["random_documents"] += 1
+        elif m < 0.56:
+            d = J.gen_ref_siblings(rng)
+            hist["one_reference_with_and_without_siblings"] = hist.get("one_reference_with_and_without_siblings", 0) + 1
         elif m < 0.95:
             d = J.gen_merge_doc(rng)
             hist["conjunctions_of_one_keyword_group"] += 1
